@@ -83,6 +83,10 @@ CLAIMS = {
    technique="runtime monitoring under the Go race detector: recorded DNS-cache lookup histories checked offline for per-host linearizability with porcupine and online for expiry / host identity / size bound (hook reads under the cache mutex); concurrent KeyRing batches and DirectKeyFetcher pools over scripted key clients compared with the sequential expectation; concurrent round trips through one transport cache to identifying TLS listeners; simultaneous first-time accessor calls on a shared event",
    text="Every workload runs in a -race build with GORACE logging; any report in a library frame is a violation (deduplicated by function pair). DNS cache: hundreds of short histories (<= 200 lookups, 2-32 goroutines, 3-6 hosts, size 1-4, lifetimes 20-80 ms) with a resolver that returns a unique address per call after a random delay or fails, so that a cached answer identifies the miss that installed it; evidence counts histories with overlapping misses on one host, with eviction pressure and spanning an expiry. Key ring: overlapping batches from up to 16 goroutines against servers that are reachable, notary-only or down; FetchKeys with 1-300 servers. Transport cache: up to 32 goroutines x 2-6 httptest TLS listeners. 'Never deadlocks' is observed as bounded progress only.",
    note=TB + "Go race detector; porcupine v1.3.0 (timeout = inconclusive); wall clock only in the one-sided stale-entry check; interleavings are sampled by the Go scheduler plus injected latencies."),
+ "C15": dict(level="exploration", design="§4 C15",
+   technique="runtime monitoring: every handler (HandleMakeJoin, HandleMakeLeave, HandleSendJoin, HandleInvite, PerformJoin) is called on simulated rooms with each guard of the statement true / false (all-true, all singles, all pairs, random subsets), queriers and the remote server being scripted stubs backed by the simulator's ground truth; success must coincide with the conjunction of guards, returned events are checked for a valid local signature over the unmodified event by an independent ed25519 check",
+   text="Guard vectors are enumerated per handler: make_join (4 guards + 4+ restricted-room situations incl. pending invite, non-resident allowed room, authoriser with / without invite power, v12 creators), make_leave (3), send_join (8), invite (3 x known room x stripped state supplied), PerformJoin (5, with a scripted make_join / send_join remote, including a complete valid v11 room whose create event names an unknown room version). The evidence counts calls, successes and refusals per handler.",
+   note=TB + "handlers are driven through their public input structs; HandleInvite offers no request-origin parameter; pseudo-ID variants (HandleInviteV3, mxid_mapping) not driven."),
 }
 NOT_YET = "check not built yet (work in progress; see DESIGN.md §4 for the planned monitor)"
 
